@@ -265,6 +265,105 @@ def check_formulas(case, ctx, sink):
 
 # -- plan / run ---------------------------------------------------------------
 
+# -- nested reference expressions ---------------------------------------------------
+
+def _gen_ref_tree(rng, rects, depth):
+    """['leaf', rect] | [op, left, right] with op in and/or/add"""
+    if depth <= 0 or rng.random() < 0.3:
+        return ['leaf', rng.choice(rects)]
+    op = rng.choice(('and', 'or', 'add', 'or', 'add'))
+    l, r = _gen_ref_tree(rng, rects, depth - 1), _gen_ref_tree(rng, rects, depth - 1)
+    if op == 'and' and l[0] != 'leaf' and r[0] != 'leaf':
+        r = ['leaf', rng.choice(rects)]      # `) (` adjacency: open finding of its own
+    return [op, l, r]
+
+
+def _tree_text(t, top=True):
+    if t[0] == 'leaf':
+        return _qual('S1', t[1])
+    l, r = _tree_text(t[1], False), _tree_text(t[2], False)
+    if t[0] == 'and':
+        txt = '%s %s' % (l, r)
+    elif t[0] == 'or':
+        txt = '%s,%s' % (l, r)
+    else:
+        txt = '%s:%s' % (l, r)
+    return '(%s)' % txt
+
+
+def _tree_areas(t):
+    """list of rectangles (a multiset of areas), None for an empty intersection
+    or an ill-formed range (propagates upwards)"""
+    if t[0] == 'leaf':
+        return [('S1',) + tuple(t[1][1:])]
+    a, b = _tree_areas(t[1]), _tree_areas(t[2])
+    if a is None or b is None:
+        return None
+    if t[0] == 'and':
+        return rr.ref_and(a, b) or None
+    if t[0] == 'or':
+        return a + b
+    bb = rr.bounding(a + b)
+    return [bb] if bb else None
+
+
+def check_ref_trees(case, ctx, sink):
+    """case: {'n','base','variant','trees':[tree]}: SUM and COUNT of nested
+    reference expressions against the cell-set definition."""
+    import formulas
+    sink.case = case
+    n, base = case['n'], case['base']
+    cells = _cells_for_model(n, base, case.get('variant', 0), False)
+    d = {_key(s_, c, r): v for (s_, c, r), v in cells.items()}
+    exp = {}
+    for j, t in enumerate(case['trees']):
+        areas = _tree_areas(t)
+        if areas is None:
+            continue
+        tot, cnt = 0.0, 0
+        for ar in areas:
+            for cell in rr.cells(ar):
+                v = cells.get(cell)
+                if isinstance(v, float):
+                    tot += v
+                    cnt += 1
+        key = '%s%d' % (rr.col_name(n + 3), j + 1)
+        key2 = '%s%d' % (rr.col_name(n + 4), j + 1)
+        d[key], d[key2] = '=SUM(%s)' % _tree_text(t), '=COUNT(%s)' % _tree_text(t)
+        exp[key], exp[key2] = (tot, t), (float(cnt), t)
+    try:
+        sol = formulas.ExcelModel().from_dict(d).calculate()
+    except Exception as ex:
+        if len(case['trees']) > 1:
+            for t in case['trees']:
+                check_ref_trees(dict(case, trees=[t]), ctx, sink)
+            return
+        ctx.violation('tree:model-raised:%s' % type(ex).__name__, {
+            'case': case, 'formula': _tree_text(case['trees'][0]),
+            'observed': repr(ex)[:300], 'accepted': ['a model']})
+        return
+    for key, (want, t) in exp.items():
+        ctx.count('monitor.tree')
+        ctx.case((d[key], case.get('variant', 0)))
+        try:
+            got = xl.canon(xl.scalar(sol[key.upper()]))
+        except KeyError:
+            got = ('foreign', 'missing from solution')
+        if got != xl.c_num(want):
+            ctx.violation('tree:%s:%s' % (d[key].split('(')[0][1:], _tree_shape(t)), {
+                'case': dict(case, trees=[t]), 'formula': d[key],
+                'observed': xl.show(got), 'accepted': [repr(want)]})
+    if exp:
+        ctx.sample({'formula': d[key], 'expected': exp[key][0]})
+
+
+def _tree_shape(t):
+    if t[0] == 'leaf':
+        return '.'
+    return '%s(%s%s)' % ({'and': 'I', 'or': 'U', 'add': 'R'}[t[0]],
+                         _tree_shape(t[1]), _tree_shape(t[2]))
+
+
 def plan(tier, seed):
     n = 4 if tier == 'quick' else 5
     nr = len(_grid_rects(n))
@@ -279,6 +378,8 @@ def plan(tier, seed):
     for i in range(nf):
         specs.append({'kind': 'formula', 'n': n, 'part': i, 'parts': nf,
                       'models': 6 if tier == 'quick' else 20})
+    for i in range(4 if tier == 'quick' else 16):
+        specs.append({'kind': 'trees', 'n': n, 'models': 10 if tier == 'quick' else 40})
     return specs
 
 
@@ -295,6 +396,8 @@ def check_case(case, ctx):
         check_pair(case, ctx, s)
     elif case['kind'] == 'formula':
         check_formulas(case, ctx, s)
+    elif case['kind'] == 'trees':
+        check_ref_trees(case, ctx, s)
 
 
 def _rand_rect(rng, n, sheet=''):
@@ -363,6 +466,15 @@ def run(spec, ctx):
                     'b': [['', 1, 3, 4, 4]], 'content': 'unique'}
             check_pair(case, ctx, s)
         ctx.sample(case)
+    elif k == 'trees':
+        n = spec['n']
+        rects = _grid_rects(n)
+        for mi in range(spec['models']):
+            trees = [t for t in (_gen_ref_tree(rng, rects, rng.randint(2, 3))
+                                 for _ in range(30)) if t[0] != 'leaf']
+            case = {'kind': 'trees', 'n': n, 'base': 3, 'variant': mi % 4, 'trees': trees}
+            ctx.open_case({'kind': 'trees', 'model': mi})
+            check_ref_trees(case, ctx, s)
     elif k == 'formula':
         n = spec['n']
         rects = _grid_rects(n)
@@ -395,7 +507,8 @@ def finalize(agg, tier):
     for k, floor in (('contract.and', 5000), ('contract.or', 5000),
                      ('contract.add', 5000), ('contract.sub', 5000),
                      ('contract.simplify', 5000), ('contract.value', 5000),
-                     ('monitor.formula', 500), ('monitor.add-values', 2000)):
+                     ('monitor.formula', 500), ('monitor.add-values', 2000),
+                     ('monitor.tree', 1000)):
         if c.get(k, 0) < floor:
             inc.append('monitor %s saw %d events (< %d)' % (k, c.get(k, 0), floor))
     rel = set(agg['sets'].get('relation', ()))
